@@ -36,6 +36,8 @@ for _m, _fn in (('bitflip_int', 'BitFlipMutator::mutate_int'), ('bitflip_long', 
                                                                         if _s == 'arb' else 'all PRNG outputs (ChaCha8 block output = kani::any())'),
             'src/mutators: ' + _fn, ['C16', 'C09'])
 for _s in ('arb', 'rand'):
+    HARNESS['u8_create_mode_' + _s] = _h(['C16'], True, 'both modes, all indices, all rates, all 2-byte emissions, all entropy',
+                                         'src/mutators/mod.rs: MutatorKind::create (forwards unsafe_mode; behaviour of the created mutators in safe mode)', ['C16', 'C09'])
     HARNESS['u8_character_bytes_' + _s] = _h(['C15', 'C16'], False, 'byte strings of length 0..4 (all bytes), all rates, all entropy',
                                              'src/mutators/character.rs: CharacterMutator::mutate_bytes', ['C16', 'C09'])
     HARNESS['u8_typeconfusion_' + _s] = _h(['C15', 'C16', 'C04', 'C06', 'C10'], False,
